@@ -412,22 +412,15 @@ func vC23Run(g *vC23Gen, sc vC23Scenario) (coq string, desc map[string]any, clas
 	var dsteps []map[string]any
 	// Stream.updateLastTime / the arguments SubStream.Initialize hands to initialize2
 	firstTime, lastPTS, lastSys := false, time.Duration(0), time.Now()
-	subStep := func(useRTP, decOK, firstTime bool, res, dres string, fx *vFx) {
-		ptsoff := int64(0)
-		if fx != nil {
-			ptsoff = fx.sf.ptsOffset
-		}
-		steps = append(steps, cqApp("NewSub", cqBool(useRTP), cqBool(decOK), cqBool(firstTime), cqZ(ptsoff), res))
-		dsteps = append(dsteps, map[string]any{"newSubStream": map[string]any{"rtpPublisher": useRTP, "firstTimeReceived": firstTime,
-			"ptsOffset": ptsoff, "stateAfter": dres}})
-	}
+	var subStep func(useRTP, decOK, firstTime bool, res, dres string, fx *vFx)
 
 	fx, err := vNewFx(forma, segs[0].rtp, sc.max, aa)
 	if err != nil {
 		// subStreamFormat.initialize refused the very first sub stream (no encoder for the format and maximum)
-		subStep(segs[0].rtp, vC23DecOK(forma), false, "NErr", "error: "+err.Error(), nil)
-		desc["steps"] = dsteps
-		return mkCase(steps), desc, sc.f.name + "/" + mode + "/init-error", true
+		rec := &vC23Rec{f: sc.f, max: sc.max, classes: map[string]bool{}}
+		rec.sub(segs[0].rtp, vC23DecOK(forma), false, 0, "NErr", "error: "+err.Error())
+		desc["steps"] = rec.dsteps
+		return mkCase(rec.steps), desc, sc.f.name + "/" + mode + "/init-error", true
 	}
 	fx.sf.updateLastTime = func(pts time.Duration) {
 		firstTime = true
@@ -517,100 +510,16 @@ func vC23Run(g *vC23Gen, sc vC23Scenario) (coq string, desc map[string]any, clas
 		return ins
 	}
 
-	classes := map[string]bool{}
-	reenc := 0
-	trig := false
-	merged := false
-	knownClass := ""
-	// records one unit that went through writeUnitInner: ipts = the PTS handed to writeUnit, u = the unit afterwards
-	record := func(ipts int64, uclass string, sentPkts []*rtp.Packet, decerr, hadEnc bool, u *unit.Unit, werr error, pan string) {
-		ds := map[string]any{"pts": ipts, "class": uclass}
-		if u.PTS != ipts {
-			ds["deliveredPTS"] = u.PTS
+	rec := &vC23Rec{f: sc.f, max: sc.max, check: check, hasEnc: func() bool { return fx.sf.rtpEncoder != nil },
+		classes: map[string]bool{}, steps: steps, dsteps: dsteps}
+	subStep = func(useRTP, decOK, firstTime bool, res, dres string, fx *vFx) {
+		ptsoff := int64(0)
+		if fx != nil {
+			ptsoff = fx.sf.ptsOffset
 		}
-		if len(sentPkts) != 0 {
-			ds["in"] = vC23PktDesc(sentPkts)
-		}
-		var res string
-		var deliv [][]byte
-		delivCoq := "None"
-		var dl []int64
-		switch {
-		case pan != "":
-			res = "SPanic"
-			ds["panic"] = pan
-		case werr != nil:
-			res = "SErr"
-			ds["err"] = werr.Error()
-			if !u.NilPayload() {
-				deliv = vC22PayloadList(u.Payload)
-				delivCoq = "(Some " + cqC23BytesList(deliv) + ")"
-				ds["delivered"] = vC23Sizes(deliv)
-			}
-		default:
-			if !u.NilPayload() {
-				deliv = vC22PayloadList(u.Payload)
-				delivCoq = "(Some " + cqC23BytesList(deliv) + ")"
-				ds["delivered"] = vC23Sizes(deliv)
-			}
-			var obs []string
-			var dobs []string
-			var decAll [][]byte
-			if fx.sf.rtpEncoder != nil {
-				frames, nbytes := 0, 0
-				for _, p := range u.RTPPackets {
-					switch sc.f.deltas {
-					case "frames":
-						dl = append(dl, int64(frames*sc.f.spf))
-					case "bytes":
-						dl = append(dl, int64(nbytes/sc.f.spf))
-					}
-					c, d, l := vC23Decode(check, p)
-					obs = append(obs, c)
-					dobs = append(dobs, d)
-					decAll = append(decAll, l...)
-					frames += len(l)
-					nbytes += len(p.Payload)
-				}
-				if sc.f.name == "av1" && vC23Merged(deliv, decAll) {
-					merged = true
-					knownClass = "av1/obus-merged-at-packet-boundary"
-					ds["knownDefect"] = "adjacent OBUs joined by the RTP/AV1 packetisation (gortsplib rtpav1.Encoder sets Y/Z although nothing of the next OBU is in the packet)"
-				}
-				if sc.f.name == "opus" && vC23OpusOversized(deliv, u.RTPPackets, sc.max) {
-					merged = true
-					knownClass = "opus/packet-larger-than-max"
-					ds["knownDefect"] = "an Opus packet longer than the maximum RTP payload size is sent as it is (RTP/Opus cannot fragment; rtpEncoderOpus neither splits nor refuses it)"
-				}
-				if sc.f.deltas == "opus" && !u.NilPayload() {
-					dl = vC23OpusDeltas(u.Payload)
-				}
-				if len(u.RTPPackets) != 0 {
-					reenc++
-				}
-				if !hadEnc {
-					trig = true
-				}
-			}
-			res = cqApp("SOk", cqListOf(u.RTPPackets, cqC23Pkt), cqList(obs))
-			ds["out"] = vC23PktDesc(u.RTPPackets)
-			if dobs != nil {
-				ds["decoded"] = dobs
-			}
-		}
-		if dl != nil {
-			ds["tsDeltas"] = dl
-		}
-		steps = append(steps, cqApp("Step", cqZ(ipts), cqZ(u.PTS), cqListOf(sentPkts, cqC23Pkt), cqBool(decerr), delivCoq,
-			cqListOf(dl, func(v int64) string { return cqZ(v) }), res))
-		dsteps = append(dsteps, ds)
-		if !merged {
-			classes[uclass] = true
-			if res == "SPanic" || res == "SErr" {
-				classes["error"] = true
-			}
-		}
+		rec.sub(useRTP, decOK, firstTime, ptsoff, res, dres)
 	}
+	record := rec.record
 
 segments:
 	for si, seg := range segs {
@@ -619,7 +528,7 @@ segments:
 			forma = inFormat(false)
 			if e := vC23NewSub(fx, forma, useRTP); e != nil {
 				subStep(useRTP, vC23DecOK(forma), firstTime, "NErr", "error: "+e.Error(), fx)
-				classes["error"] = true
+				rec.classes["error"] = true
 				break
 			}
 		}
@@ -649,7 +558,7 @@ segments:
 		subStep(useRTP, !useRTP || vC23DecOK(forma), firstArg, "(NOk "+stCoq+")", stDesc, fx)
 		for _, u := range own {
 			record(int64(uint64(u.PTS)-uint64(fx.sf.ptsOffset)), "parameter-sets", nil, false, hadEnc, u, nil, "")
-			if merged {
+			if rec.merged {
 				break segments
 			}
 		}
@@ -679,12 +588,12 @@ segments:
 			}
 			werr, pan := fx.write(u)
 			record(in.pts, in.class, sentPkts, decerr, hadEnc, u, werr, pan)
-			if merged {
+			if rec.merged {
 				// the steps before the defective one are judged on their own (prefix case); the scenario ends here
-				if len(steps) > 2 {
+				if len(rec.steps) > 2 {
 					vC23Prefix = &vC23Case{
-						coq:   mkCase(steps[:len(steps)-1]),
-						desc:  map[string]any{"format": sc.f.name, "max": sc.max, "rtpPublisher": sc.rtp, "prefixOfKnownDefectCase": true, "steps": dsteps[:len(dsteps)-1]},
+						coq:   mkCase(rec.steps[:len(rec.steps)-1]),
+						desc:  map[string]any{"format": sc.f.name, "max": sc.max, "rtpPublisher": sc.rtp, "prefixOfKnownDefectCase": true, "steps": rec.dsteps[:len(rec.dsteps)-1]},
 						class: sc.f.name + "/prefix-of-known-defect-case", nt: true,
 					}
 				}
@@ -692,24 +601,139 @@ segments:
 			}
 		}
 	}
-	desc["steps"] = dsteps
-	coq = mkCase(steps)
-	if merged {
-		return coq, desc, knownClass, true
+	desc["steps"] = rec.dsteps
+	coq = mkCase(rec.steps)
+	if rec.merged {
+		return coq, desc, rec.knownClass, true
 	}
-	if sc.mode == 0 && sc.rtp && trig {
+	if sc.mode == 0 && sc.rtp && rec.trig {
 		mode = "rtp-oversize-trigger"
 	}
 	// the class names the most specific kind of unit in the scenario
-	cl := "plain"
+	class = sc.f.name + "/" + mode + "/" + rec.unitClass()
+	return coq, desc, class, rec.reenc > 0
+}
+
+// records the steps of a scenario (sub stream initialisations and units) as Coq terms and readable descriptions
+type vC23Rec struct {
+	f      *vC23Fmt
+	max    int
+	check  rtpDecoder  // decoder of a reader that stays connected over all sub streams, fed the generated packets
+	hasEnc func() bool // the format has an encoder now
+	steps  []string
+	dsteps []map[string]any
+
+	classes    map[string]bool
+	reenc      int
+	trig       bool
+	merged     bool
+	knownClass string
+}
+
+func (rc *vC23Rec) sub(useRTP, decOK, firstTime bool, ptsoff int64, res, dres string) {
+	rc.steps = append(rc.steps, cqApp("NewSub", cqBool(useRTP), cqBool(decOK), cqBool(firstTime), cqZ(ptsoff), res))
+	rc.dsteps = append(rc.dsteps, map[string]any{"newSubStream": map[string]any{"rtpPublisher": useRTP, "firstTimeReceived": firstTime,
+		"ptsOffset": ptsoff, "stateAfter": dres}})
+}
+
+// the class names the most specific kind of unit in the scenario
+func (rc *vC23Rec) unitClass() string {
 	for _, k := range []string{"directed", "error", "outside-precondition", "big", "fua", "stap", "mixed", "single", "boundary", "small"} {
-		if classes[k] {
-			cl = k
-			break
+		if rc.classes[k] {
+			return k
 		}
 	}
-	class = sc.f.name + "/" + mode + "/" + cl
-	return coq, desc, class, reenc > 0
+	return "plain"
+}
+
+// records one unit that went through writeUnitInner: ipts = the PTS handed to writeUnit, u = the unit afterwards
+func (rc *vC23Rec) record(ipts int64, uclass string, sentPkts []*rtp.Packet, decerr, hadEnc bool, u *unit.Unit, werr error, pan string) {
+	ds := map[string]any{"pts": ipts, "class": uclass}
+	if u.PTS != ipts {
+		ds["deliveredPTS"] = u.PTS
+	}
+	if len(sentPkts) != 0 {
+		ds["in"] = vC23PktDesc(sentPkts)
+	}
+	var res string
+	var deliv [][]byte
+	delivCoq := "None"
+	var dl []int64
+	switch {
+	case pan != "":
+		res = "SPanic"
+		ds["panic"] = pan
+	case werr != nil:
+		res = "SErr"
+		ds["err"] = werr.Error()
+		if !u.NilPayload() {
+			deliv = vC22PayloadList(u.Payload)
+			delivCoq = "(Some " + cqC23BytesList(deliv) + ")"
+			ds["delivered"] = vC23Sizes(deliv)
+		}
+	default:
+		if !u.NilPayload() {
+			deliv = vC22PayloadList(u.Payload)
+			delivCoq = "(Some " + cqC23BytesList(deliv) + ")"
+			ds["delivered"] = vC23Sizes(deliv)
+		}
+		var obs []string
+		var dobs []string
+		var decAll [][]byte
+		if rc.hasEnc() {
+			frames, nbytes := 0, 0
+			for _, p := range u.RTPPackets {
+				switch rc.f.deltas {
+				case "frames":
+					dl = append(dl, int64(frames*rc.f.spf))
+				case "bytes":
+					dl = append(dl, int64(nbytes/rc.f.spf))
+				}
+				c, d, l := vC23Decode(rc.check, p)
+				obs = append(obs, c)
+				dobs = append(dobs, d)
+				decAll = append(decAll, l...)
+				frames += len(l)
+				nbytes += len(p.Payload)
+			}
+			if rc.f.name == "av1" && vC23Merged(deliv, decAll) {
+				rc.merged = true
+				rc.knownClass = "av1/obus-merged-at-packet-boundary"
+				ds["knownDefect"] = "adjacent OBUs joined by the RTP/AV1 packetisation (gortsplib rtpav1.Encoder sets Y/Z although nothing of the next OBU is in the packet)"
+			}
+			if rc.f.name == "opus" && vC23OpusOversized(deliv, u.RTPPackets, rc.max) {
+				rc.merged = true
+				rc.knownClass = "opus/packet-larger-than-max"
+				ds["knownDefect"] = "an Opus packet longer than the maximum RTP payload size is sent as it is (RTP/Opus cannot fragment; rtpEncoderOpus neither splits nor refuses it)"
+			}
+			if rc.f.deltas == "opus" && !u.NilPayload() {
+				dl = vC23OpusDeltas(u.Payload)
+			}
+			if len(u.RTPPackets) != 0 {
+				rc.reenc++
+			}
+			if !hadEnc {
+				rc.trig = true
+			}
+		}
+		res = cqApp("SOk", cqListOf(u.RTPPackets, cqC23Pkt), cqList(obs))
+		ds["out"] = vC23PktDesc(u.RTPPackets)
+		if dobs != nil {
+			ds["decoded"] = dobs
+		}
+	}
+	if dl != nil {
+		ds["tsDeltas"] = dl
+	}
+	rc.steps = append(rc.steps, cqApp("Step", cqZ(ipts), cqZ(u.PTS), cqListOf(sentPkts, cqC23Pkt), cqBool(decerr), delivCoq,
+		cqListOf(dl, func(v int64) string { return cqZ(v) }), res))
+	rc.dsteps = append(rc.dsteps, ds)
+	if !rc.merged {
+		rc.classes[uclass] = true
+		if res == "SPanic" || res == "SErr" {
+			rc.classes["error"] = true
+		}
+	}
 }
 
 func TestVerifC23(t *testing.T) {
@@ -744,6 +768,16 @@ func TestVerifC23(t *testing.T) {
 		}
 	}()
 	vC23ConfCase(out)
+	// real always-available Streams going through several sub streams (zz_verif_c23stream_test.go)
+	for _, rs := range vC23RealStreams(g, fmts) {
+		if rs.ok {
+			out.Case(rs.coq, rs.desc, rs.class, rs.nt)
+		} else if p, bad := rs.desc["panic"]; bad {
+			t.Errorf("real-stream scenario panicked: %v", p)
+		} else {
+			t.Logf("real-stream scenario gave no case: %v", rs.desc)
+		}
+	}
 	for i := 0; i < n; i++ {
 		if i%stride == 0 && nextDirected < len(directed) {
 			emitDirected()
